@@ -19,6 +19,10 @@ import time
 sys.path.insert(0, os.path.dirname(os.path.abspath(__file__)))
 import common as C
 
+# pinned environment (explicit, not inherited): process time zone and CPython's int <-> str digit limit, which is
+# dumped into coq/gen/ParseTables.v (a different value would change the model and rebuild every proof)
+os.environ["TZ"] = "UTC"
+os.environ["PYTHONINTMAXSTRDIGITS"] = "4300"
 C.reexec_under_impl_python()
 import parse_common as PC
 
@@ -50,7 +54,114 @@ def m_unprintable_month(payload):
     return PC.model_raw(PC.opts_from_json(inp.get("opts")), inp["s"]) == [3, 8]
 
 
-MATCHERS = {"m_unprintable_month": m_unprintable_month}
+def m_tzinfos_type(payload):
+    """a TypeError escapes AND on the faithful model the tzinfos value the text resolves to is of an unsupported
+    type (Full.bad_value; model reply [3, 5] = OutEscape TypeError) -- complement of C14_parse_full_total's class 2"""
+    inp, impl = payload.get("input"), payload.get("impl")
+    if not (isinstance(inp, dict) and isinstance(inp.get("s"), str) and impl is not None
+            and list(impl) == ["escape", "TypeError"]
+            and payload.get("kind", "").startswith("parse() outcome outside")):
+        return False
+    return PC.model_raw(PC.opts_from_json(inp.get("opts")), inp["s"]) == [3, 5]
+
+
+def m_tzstr_rejected(payload):
+    """a plain ValueError escapes AND on the faithful model the text resolves to a tzinfos TZ string that tz.tzstr
+    rejects (Full.rejected_tzstr; model reply [3, 2] = OutEscape ValueError)"""
+    inp, impl = payload.get("input"), payload.get("impl")
+    if not (isinstance(inp, dict) and isinstance(inp.get("s"), str) and impl is not None
+            and list(impl) == ["escape", "ValueError"]
+            and payload.get("kind", "").startswith("parse() outcome outside")):
+        return False
+    return PC.model_raw(PC.opts_from_json(inp.get("opts")), inp["s"]) == [3, 2]
+
+
+def m_undecodable(payload):
+    """bytes input that is not valid UTF-8 AND the exception is UnicodeDecodeError (a ValueError, not ParserError)"""
+    inp, impl = payload.get("input"), payload.get("impl")
+    if not (isinstance(inp, dict) and isinstance(inp.get("bytes_hex"), str) and impl is not None
+            and list(impl) == ["escape", "UnicodeDecodeError"]):
+        return False
+    try:
+        bytes.fromhex(inp["bytes_hex"]).decode("utf-8")
+    except UnicodeDecodeError:
+        return True
+    return False
+
+
+MATCHERS = {"m_unprintable_month": m_unprintable_month, "m_tzinfos_type": m_tzinfos_type,
+            "m_tzstr_rejected": m_tzstr_rejected, "m_undecodable": m_undecodable}
+
+
+def token_shape_ok(tok):
+    """the lexer invariant Prim.v's int()/float()/Decimal() acceptance predicates rely on: a token is a single
+    character, or consists of letters, digits, '.' and ',' only with every maximal dot/comma-free group all
+    letters or all digits ('1.a', 'a.1.b' occur; never a sign, underscore or space inside a token, never a
+    letter next to a digit, so no exponent form '1e5', no 'nan123', no '1_0')"""
+    if len(tok) <= 1:
+        return True
+    import re
+    for grp in re.split(r"[.,]", tok):
+        if not grp:
+            continue
+        if not (all(ch.isalpha() for ch in grp) or all(ch.isdigit() for ch in grp)):
+            return False
+    return True
+
+
+def outside_table_cases(tier):
+    """texts with letters / digits / spaces OUTSIDE ASCII + ParseTables.tbl_chars: outside the model, the
+    implementation's outcome CLASS only"""
+    r = C.rng("C14-outside")
+    table = set(PC.table_codepoints())
+    blocks = [(0x400, 0x4FF), (0x370, 0x3FF), (0x660, 0x669), (0x6F0, 0x6F9), (0x966, 0x96F), (0xFF10, 0xFF5A),
+              (0x4E00, 0x4E80), (0x1D7CE, 0x1D7FF), (0xB2, 0xB3), (0xB9, 0xB9), (0x2160, 0x2188), (0x2000, 0x200B),
+              (0x3000, 0x3000), (0x85, 0x85), (0x1680, 0x1680), (0x2460, 0x249B), (0x1F100, 0x1F10A),
+              (0xD800, 0xD803), (0x10FFFE, 0x10FFFF), (0xC0, 0x17F), (0x5D0, 0x5EA), (0xE50, 0xE59)]
+    pool = [c for lo, hi in blocks for c in range(lo, hi + 1) if c not in table]
+    n = 4000 if tier == "quick" else 120000
+    out = []
+    for _ in range(n):
+        base = PC.render_some(r, PC.gen_dt(r)) if r.random() < 0.6 else PC.gen_fuzz(r)
+        chars = list(base)
+        for _k in range(r.randint(1, 4)):
+            run = "".join(chr(r.choice(pool)) for _ in range(r.randint(1, 3)))
+            pos = r.randint(0, len(chars))
+            if r.random() < 0.5 and chars:
+                chars[min(pos, len(chars) - 1)] = run
+            else:
+                chars.insert(pos, run)
+        out.append((PC.gen_opts(r), "".join(chars)))
+    return out
+
+
+def scaling_probe(tier):
+    """'terminates promptly': wall time of the implementation on inputs of 10^4 and 10^5 characters.  Stated bound:
+    every shape finishes 10^5 characters within SCALE_BOUND_S seconds; the ratio t(10^5)/t(10^4) is reported (the
+    digit-run shapes are quadratic: int(Decimal) / Decimal(str) on n digits)"""
+    shapes = {
+        "digits": lambda n: "1" * n,
+        "hh:digits": lambda n: "10:" + "1" * n,
+        "digits m": lambda n: "1" * n + " m",
+        "letters": lambda n: "a" * n,
+        "many tokens": lambda n: ("10 ab , " * (n // 8 + 1))[:n],
+        "dotted": lambda n: ("1." * (n // 2 + 1))[:n],
+        "spaces": lambda n: " " * n + "10:30",
+    }
+    res = {}
+    for name, f in shapes.items():
+        row = {}
+        for n in (10 ** 4, 10 ** 5):
+            o = PC.default_opts()
+            o["fuzzy"] = name in ("many tokens", "letters")
+            t = time.time()
+            a = PC.run_impl(o, f(n), timeout=120.0)
+            row[str(n)] = {"seconds": round(time.time() - t, 3), "outcome": a[0] if a[0] != "escape" else list(a)}
+        res[name] = row
+    return res
+
+
+SCALE_BOUND_S = 20.0
 VO = ["props/C14.vo"] + PC.VO_MODEL
 NPROC = 6
 
@@ -127,7 +238,7 @@ def gen_cases(tier):
     n = 40000 if tier == "quick" else 1500000
     out = []
     for _ in range(n):
-        o = PC.gen_opts(r)
+        o = PC.gen_opts(r, allow_bad=True)
         c = r.random()
         if c < 0.45:
             s, kind = PC.gen_fuzz(r), "fuzz"
@@ -251,6 +362,66 @@ def main():
                 n_iodiff += 1
                 verdict.violation({"kind": "%s input gives a different outcome than the same text as str" % variant,
                                    "input": {"s": s, "opts": o}, "impl_str": impl[k], "impl_variant": a3})
+    # ---- undecodable bytes (implementation only): parse() decodes bytes as UTF-8; invalid UTF-8 raises
+    # UnicodeDecodeError, a ValueError that is not ParserError (open finding F-C14-undecodable)
+    n_undec = 0
+    r2 = C.rng("C14-undecodable")
+    for k in resample[:300 if tier == "quick" else 5000]:
+        o, s, kind = cases[k]
+        try:
+            bs = bytearray(s.encode("utf-8"))
+        except UnicodeEncodeError:
+            continue
+        pos = r2.randint(0, len(bs))
+        bs[pos:pos] = r2.choice([b"\xff", b"\xc3", b"\xe2\x82", b"\x80", b"\xf8\x88\x80\x80\x80", b"\xed\xa0\x80"])
+        try:
+            bytes(bs).decode("utf-8")
+            continue
+        except UnicodeDecodeError:
+            pass
+        n_undec += 1
+        a5 = PC.run_impl(o, s, text=bytes(bs))
+        if not PC.allowed_outcome(a5):
+            n_pred += 1
+            verdict.violation({"kind": "parse() outcome outside {datetime, ParserError, OverflowError} for a bytes input",
+                               "input": {"bytes_hex": bytes(bs).hex(), "opts": o}, "impl": a5})
+    # ---- code points outside the model's alphabet (implementation only, outcome class)
+    outside = outside_table_cases(tier)
+    n_outside_bad = 0
+    outside_hist = {}
+    for (o, s) in outside:
+        a6 = PC.run_impl(o, s)
+        outside_hist[a6[0]] = outside_hist.get(a6[0], 0) + 1
+        if not PC.allowed_outcome(a6):
+            n_outside_bad += 1
+            n_pred += 1
+            verdict.violation({"kind": "parse() outcome outside {datetime, ParserError, OverflowError}"
+                                       if a6[0] != "TIMEOUT" else "parse() did not terminate within the watchdog",
+                               "input": {"s": s, "opts": o, "outside_model_alphabet": True}, "impl": a6})
+    # ---- the lexer's token-shape invariant (assumed by Prim.v's acceptance predicates): every token of every
+    # generated text, as split by the implementation's own lexer
+    from dateutil.parser import _parser as _PP
+    n_tok = n_tok_bad = 0
+    for (o, s, kind) in cases:
+        try:
+            toks = _PP._timelex.split(s)
+        except Exception:
+            continue
+        for tk_ in toks:
+            n_tok += 1
+            if not token_shape_ok(tk_):
+                n_tok_bad += 1
+                if n_tok_bad <= 3:
+                    verdict.violation({"kind": "lexer token outside the shape the model's int()/float()/Decimal() "
+                                               "predicates assume", "input": {"s": s, "opts": o}, "token": tk_},
+                                      concrete=False)
+    # ---- "terminates promptly": length scaling
+    scaling = scaling_probe(tier)
+    for name, row in scaling.items():
+        if row["100000"]["seconds"] > SCALE_BOUND_S or row["100000"]["outcome"] == "TIMEOUT":
+            verdict.violation({"kind": "parse() did not finish a 10^5-character input within %.0f s" % SCALE_BOUND_S,
+                               "input": {"s": "shape %r, n = 100000" % name, "opts": PC.default_opts()}, "impl": row},
+                              concrete=False)
     n_type = 0
     for bad in (None, 123, 1.5, [], (), {}, object(), 2003):
         n_type += 1
@@ -315,8 +486,32 @@ def main():
         "call_order_reruns": len(resample), "call_order_differences": n_order,
         "identical_call_repetitions": n_repeat, "identical_call_differences": n_repeat_diff,
         "bytes_stream_inputs": n_io, "bytes_stream_differences": n_iodiff, "non_text_inputs": n_type,
+        "undecodable_bytes_inputs": n_undec,
+        "outside_alphabet": {"inputs": len(outside), "outcome_distribution": outside_hist, "outside_allowed_set": n_outside_bad,
+                             "note": "implementation only, outcome CLASS only: letters / digits / spaces of 22 Unicode blocks "
+                                     "that are NOT in the model's table (the model would lex them as 'other')"},
+        "alphabet": {"sigma": "ASCII + %d non-ASCII code points (coq/gen/ParseTables.v tbl_chars)" % len(PC.table_codepoints()),
+                     "statement": "C14_parse_total / C14_parse_full_total carry the hypothesis over_sigma s; real Unicode "
+                                  "coverage of theorems AND of the model correspondence is exactly those code points"},
+        "token_shape_invariant": {"tokens_checked": n_tok, "violations": n_tok_bad,
+                                  "status": "ASSUMPTION of the model (argued in coq/parse/Prim.v, not proved): every lexer "
+                                            "token is a single character, or letters/digits/dots/commas whose dot-free groups are "
+                                            "all letters or all digits (no letter next to a digit, no sign/underscore/space inside "
+                                            "a token); tested here on every generated text with the implementation's own lexer"},
+        "length_scaling": {"bound": "every probe shape of 10^5 characters finishes within %.0f s on this machine" % SCALE_BOUND_S,
+                           "probes": scaling,
+                           "note": "digit-run shapes are QUADRATIC in the length (Decimal(str) / int(Decimal) on n digits): "
+                                   "10^6 digits take tens of seconds; 'promptly' is claimed for inputs up to 10^5 characters "
+                                   "only; no theorem bounds time (C14_lex_linear bounds the token count)"},
+        "option_restrictions": ["`default` is a naive datetime.datetime (a date, an aware datetime or None-with-clock is "
+                                "outside the model; a date raises TypeError)",
+                                "user tzinfo objects returned by tzinfos do not raise in tzname()/utcoffset()",
+                                "tzinfos is None, a dict or a callable with dict-like behaviour; its values may be ANYTHING "
+                                "(unsupported types and rejected TZ strings are generated: F-C14-tzinfos-type, F-C14-tzstr)",
+                                "text is str / bytes / text stream; undecodable bytes are generated (F-C14-undecodable)"],
         "timing_s": {"impl": round(t_impl, 1), "model": round(t_model, 1)},
-        "known_finding_examples": {k: {"s_prefix": v["input"]["s"][:40], "len": len(v["input"]["s"]), "impl": v.get("impl")}
+        "known_finding_examples": {k: {"s_prefix": (v["input"].get("s") or v["input"].get("bytes_hex", ""))[:40],
+                                       "len": len(v["input"].get("s") or v["input"].get("bytes_hex", "")), "impl": v.get("impl")}
                                    for k, v in verdict.known_examples.items()},
         "differential_only": ["bytes/bytearray/stream inputs and TypeError on non-text (implementation only)",
                               "code points outside ASCII + coq/gen/ParseTables.tbl_chars are outside the model"],
@@ -328,7 +523,22 @@ def main():
                 "matcher": "m_unprintable_month: implementation outcome is a plain ValueError AND the text has a digit run "
                            "longer than sys.get_int_max_str_digits() AND the extracted model's outcome for the same input and "
                            "options is OutEscape ValueErrorNoStr (oracle reply [3, 8])",
-                "relation": "matcher = complement of the theorem's guard, evaluated on the extracted model for the very input"}},
+                "relation": "matcher = complement of the theorem's guard, evaluated on the extracted model for the very input"},
+            "F-C14-tzinfos-type": {
+                "theorem": "C14_parse_full_total (escape_class, class 2), C14_parse_full_escapes_refuted; guarded form C14_parse_total (wf_tzinfos)",
+                "guard": "wf_tzinfos: every tzinfos value is int | TZ string | tzinfo | None; exact trigger Full.bad_value o r = true",
+                "matcher": "m_tzinfos_type: the implementation raises TypeError AND the extracted full model answers OutEscape TypeError ([3, 5])",
+                "relation": "matcher = the theorem's class-2 trigger evaluated on the extracted model for the very input"},
+            "F-C14-tzstr": {
+                "theorem": "C14_parse_full_total (escape_class, class 3), C14_parse_full_escapes_refuted, C14_parse_full_wf (bad = [])",
+                "guard": "no tzinfos TZ string is rejected by tz.tzstr (bad = []); exact trigger Full.rejected_tzstr bad o r = true",
+                "matcher": "m_tzstr_rejected: the implementation raises a plain ValueError AND the extracted full model answers OutEscape ValueError ([3, 2])",
+                "relation": "matcher = the theorem's class-3 trigger evaluated on the extracted model for the very input"},
+            "F-C14-undecodable": {
+                "theorem": "none (bytes decoding is outside the model; implementation-only)",
+                "guard": "bytes input is valid UTF-8",
+                "matcher": "m_undecodable: the input bytes do not decode as UTF-8 AND the exception is UnicodeDecodeError",
+                "relation": "matcher = complement of the stated input restriction"}},
         "known_findings_hit": verdict.known_hits,
     }
     C.write_evidence(CID, tier, t0, props, cov,
@@ -340,7 +550,12 @@ def main():
                       "relativedelta(weekday=) modelled (Build.v), not verified",
                       "character classes: ASCII formulas checked against the running Python on every run + "
                       "dumped table for representative non-ASCII code points (harness/gen_parse_tables.py)",
-                      "tz objects are a small datatype; tzname() of user/local zones enters as two oracle bits"],
+                      "tz objects are a small datatype; tzname() of user zones enters as two oracle bits read from the "
+                      "object handed to parse(); for the local zone the bits and the failure inputs come from the `time` "
+                      "module (not from dateutil)",
+                      "ASSUMPTION: lexer token-shape invariant (see coverage.token_shape_invariant), not proved",
+                      "the clock: parserinfo._year is read once per run from the implementation's module-level parser "
+                      "and pinned on every parserinfo the check creates; TZ and PYTHONINTMAXSTRDIGITS are pinned"],
                      len(verdict.violations))
     print("C14 %s: obligations %d/%d, %d cases (impl %.0fs, model %.0fs), predicate violations %d, model-diff %d, "
           "order-diff %d, repeat-diff %d, io-diff %d, %.1fs" % (tier, props["discharged"], props["obligations"], len(cases),
